@@ -29,9 +29,9 @@ MemJudge(e) ==
          ELSE [freed_tainted |-> {i \in 1..Len(o.events) : o.events[i].k = "dealloc" /\ o.events[i].tainted}, live_at_end |-> LiveAtEnd(o.events)]>>
   ELSE IF e.op = "mem.drop" THEN
        LET s == Secrets(e) IN <<\A i \in 1..Len(s) : ~BIsZero(s[i]) => ErasedOK(s[i], o.before, o.after), "secret bytes survive the drop">>
-  \* the encoded value is the documented one AND the object's storage is byte for byte that of the documented value
+  \* the encoded value is the documented one AND the storage of the wiped object is the same whatever it held before
   \* (an encoder reads only some coordinates: a surviving T coordinate would not show in o.r)
-  ELSE IF e.op = "mem.zeroize" THEN <<o.r = ZeroizedValue(e.ty) /\ (Has(o, "raw") => o.raw = o.raw_id), ZeroizedValue(e.ty)>>
+  ELSE IF e.op = "mem.zeroize" THEN <<o.r = ZeroizedValue(e.ty) /\ (Has(o, "raws") => \A k \in 2..Len(o.raws) : o.raws[k] = o.raws[1]), ZeroizedValue(e.ty)>>
   ELSE <<FALSE, "unknown">>
 MemStep ==
   /\ l <= Len(Rec) /\ Rec[l].op \in MemOps
